@@ -11,6 +11,9 @@ import Hm.RespProps
 import Hm.C03C04
 import Hm.C08b
 import Hm.C10
+import Hm.C05
+import Hm.C08c
+import Hm.StoredBlock
 #print axioms C01_request_delivery_independent
 #print axioms C02_response_delivery_independent
 #print axioms C03_accepted_prefix_not_rejected
@@ -21,10 +24,17 @@ import Hm.C10
 #print axioms C04_framing_none
 #print axioms C04_prefix_never_rejected
 #print axioms C05_chunk_delivery_independent
+#print axioms C05_roundtrip
+#print axioms C05_roundtrip_parse
 #print axioms C06_request_no_crash
 #print axioms C06_response_no_crash
 #print axioms C08_accept_within_max
+#print axioms C08_header_line_exact
+#print axioms C08_header_line_none
 #print axioms C08_more_implies_within_max
+#print axioms C08_request_line_exact
+#print axioms C08_request_line_exact_unterminated
+#print axioms C08_request_line_none
 #print axioms C09_request_pipeline
 #print axioms C09_response_pipeline
 #print axioms C09_response_suffix_irrelevant
@@ -33,6 +43,7 @@ import Hm.C10
 #print axioms C12_no_trailer
 #print axioms C12_others
 #print axioms C12_transfer_encoding
+#print axioms C13_inflate_stored
 #print axioms C13_stack
 #print axioms C14_content_encoding
 #print axioms C14_content_length
